@@ -32,6 +32,10 @@ def ty(t):
                 % (t[1], t[1], t[2]))
     if k == "Alias":
         return "re::math::mat::Mat4x4<re::render::%s>" % t[1]
+    if k == "Polar":
+        return "re::math::angle::PolarVec"
+    if k == "Spherical":
+        return "re::math::angle::SphericalVec"
     if k == "Angle":
         return "re::math::angle::Angle"
     if k == "F32":
@@ -51,7 +55,8 @@ EXPR = {
     "RotateX": "re::math::mat::rotate_x(a)", "Sin": "re::math::angle::Angle::sin(a)",
     "PolarAz": "re::math::angle::polar(1.0, a)", "MulScalar": "a * b", "DivScalar": "a / b", "Rem": "a % b",
     "TransposeRaw": "a.transpose()",
-    "AliasIs": "[a, b]", "ThenA": "a.then(&b)",
+    "AliasIs": "[a, b]", "ThenA": "a.then(&b)", "AddCart": "a + b.to_cart()", "AddInto": "a + b.into()",
+    "Sum": "[a.clone(), a].into_iter().sum::<__T__>()",
     "CamMode": "re::render::cam::Camera::new((8, 8)).mode(a)", "CamModeTo": "re::render::cam::Camera::new((8, 8)).mode(a.to())",
 }
 # programs with a third type: two-step, or result bound to an annotated type
@@ -85,7 +90,7 @@ def render_fn(i, prog):
         if op in EXPR3:
             lines += ["    " + l.format(t3=ty(args[2])) for l in EXPR3[op]]
         else:
-            lines.append("    let _ = %s;" % EXPR[op])
+            lines.append("    let _ = %s;" % EXPR[op].replace("__T__", ty(args[0])))
     lines.append("}")
     return lines
 
